@@ -556,17 +556,18 @@ class MarkovNetwork(UndirectedGraph):
         # Dictionary stating whether the factor is used to create clique
         # potential or not
         # If false, then it is not used to create any clique potential
-        is_used = {factor: False for factor in self.factors}
+        # Tracked by position as equal factors would collapse into a single key
+        is_used = [False] * len(self.factors)
 
         for node in clique_trees.nodes():
             clique_factors = []
-            for factor in self.factors:
+            for index, factor in enumerate(self.factors):
                 # If the factor is not used in creating any clique potential as
                 # well as has any variable of the given clique in its scope,
                 # then use it in creating clique potential
-                if not is_used[factor] and set(factor.scope()).issubset(node):
+                if not is_used[index] and set(factor.scope()).issubset(node):
                     clique_factors.append(factor)
-                    is_used[factor] = True
+                    is_used[index] = True
 
             # To compute clique potential, initially set it as unity factor
             var_card = [self.get_cardinality()[x] for x in node]
@@ -587,7 +588,7 @@ class MarkovNetwork(UndirectedGraph):
                 clique_potential *= factor_product(*clique_factors)
             clique_trees.add_factors(clique_potential)
 
-        if not all(is_used.values()):
+        if not all(is_used):
             raise ValueError(
                 "All the factors were not used to create Junction Tree."
                 "Extra factors are defined."
